@@ -19,8 +19,8 @@ RULE = ('one real ActiveObject with a small pending-event capacity (2-6, so the 
 ASSUMPTIONS = ['bounded liveness under a fair suffix: exhausting the budget is reported as a violation of the stated bound (no state-cycle confirmation is attempted)']
 PROBES = ['concurrent_posters', 'token_queue_full']
 PLAN = {
-  'quick': {'strata': {'posters': 3000}, 'wall_s': 300, 'chunk': 50, 'min_conclusive': 500},
-  'thorough': {'strata': {'posters': 80000}, 'wall_s': 900, 'chunk': 100, 'min_conclusive': 500},
+  'quick': {'strata': {'posters': 3000, 'timed-posters': 1200}, 'wall_s': 300, 'chunk': 50, 'min_conclusive': 500},
+  'thorough': {'strata': {'posters': 80000, 'timed-posters': 40000}, 'wall_s': 900, 'chunk': 100, 'min_conclusive': 500},
 }
 BUDGET = 120000
 
@@ -41,10 +41,24 @@ def generate(seed, stratum, tier):
   objs[0]['instrumented'] = rng.random() < 0.75
   if rng.random() < 0.4:
     objs[0]['react'] = {'SA': [{'op': rng.choice(['post_fifo', 'post_lifo']), 'sig': 'SB', 'id': 1, 'max': 2}]}
+  horizon = None
+  if stratum == 'timed-posters':
+    # timed sources are posters too (their threads post while holding the table lock of the sources), and the object's
+    # handlers arm and cancel sources during steps: every post - theirs and the clients' - must still return
+    p = rng.choice([0.01, 0.05])
+    for slot in range(rng.randrange(1, 3)):
+      clients[0].insert(1 + slot, ['timed', 0, rng.choice(['fifo', 'lifo']), 'T%d' % slot, p, rng.choice([3, 5, 8]), rng.choice([True, False]), slot])
+    react = objs[0].setdefault('react', {})
+    react.setdefault('SB', []).append({'op': rng.choice(['cancel_events', 'timed', 'timed']), 'sig': rng.choice(['T0', 'T1']) , 'period': p, 'times': 2,
+                                       'deferred': rng.choice([True, False]), 'kind': 'fifo', 'id': 7, 'max': 3})
+    react.setdefault('T0', []).append({'op': rng.choice(['cancel_events', 'post_fifo']), 'sig': rng.choice(['T1', 'SC']), 'id': 8, 'max': 2})
+    for c in range(1, nclients):
+      clients[c].append(['sleep', p * rng.choice([1, 2, 3])])
+      clients[c].append([rng.choice(['post_fifo', 'post_lifo']), 0, 'SB'])
   first = common.draw_sched(rng, grans=('line', 'opcode'), weights=(2, 1), expected_steps=400, victims=['consumer'])
   gran = first.pop('gran')
   then = {'policy': 'rr', 'quantum': rng.randrange(1, 8)} if rng.random() < 0.6 else {'policy': 'sticky', 's': 0.0}
-  return {'objects': objs, 'queue_size': cap, 'clients': clients, 'stalls': common.draw_stalls(rng, 400, rate=0.3),
+  return {'objects': objs, 'queue_size': cap if stratum != 'timed-posters' else max(cap, 6), 'clients': clients, 'stalls': common.draw_stalls(rng, 400, rate=0.3), 'horizon_s': horizon,
           'sched': {'gran': gran, 'policy': 'phased', 'first': first, 'switch_at': rng.choice([50, 150, 300, 600]), 'then': then}}
 
 
@@ -73,7 +87,7 @@ def where(sim):
 
 def execute(sc, sched):
   res = RunResult()
-  run, sim, reason = aw.run_ao(sc, sched, max_steps=BUDGET)
+  run, sim, reason = aw.run_ao(sc, sched, max_steps=BUDGET, horizon_s=sc.get('horizon_s'))
   try:
     o = run.objs[0] if run.objs else None
     posters = [t for t in sim.threads if t.role == 'client']
@@ -85,8 +99,8 @@ def execute(sc, sched):
       res.violate('no-progress', {'posters_done': all(t.state == kernel.DONE for t in posters)},
                   'not quiescent after %d pre-emption points under a fair suffix (capacity %s): pending events %s, tokens %s; threads: %s' % (
                     BUDGET, sc['queue_size'], ld.deque.real_len() if ld is not None else '?', ld.locking_queue._qsize() if ld is not None else '?', where(sim)))
-    elif any(t.state != kernel.DONE for t in posters):
-      stuck = [t for t in posters if t.state != kernel.DONE]
+    elif any(t.state != kernel.DONE for t in posters) or any(t.role == 'timer' and t.state == kernel.BLOCKED and not t.desc.startswith('sleep') for t in sim.threads):
+      stuck = [t for t in posters if t.state != kernel.DONE] or [t for t in sim.threads if t.role == 'timer' and t.state == kernel.BLOCKED]
       res.violate('deadlock', {'at': stuck[0].desc.split(':')[0]},
                   'nothing can run but %d poster(s) have not returned (capacity %s): %s' % (len(stuck), sc['queue_size'], where(sim)))
     elif sim.thread_errors:
